@@ -151,6 +151,11 @@ def run(pid, tier, deadline_s):
     outcomes = 0
     samples = []
     internal = []
+    if pid == "C06":      # borrowed pass: the time/error/environment string functions under the page-trap logger - their result must not pass through storage shared by all callers (libc's or the library's)
+        from . import crosspass
+        ov, on_, oi = crosspass.op_footprint("C06", ("localtime", "gmtime", "ctime", "ctime_far", "asctime26", "asctime130", "strerror", "getenv"), tier); internal += oi
+        for sig_, case_, n_ in ov: viol.setdefault(sig_, [0, case_, "prod", "C"])[0] += n_
+        evals += on_; nontriv += on_
     for (name, v, loc, sh, nsh), r in results:
         if r.returncode != 0:
             internal.append(f"{name}/{v}/{loc}: exit {r.returncode}: {r.stderr[-300:]} {r.stdout[-300:]}")
@@ -229,6 +234,9 @@ def replay_kv(kv, quiet=False):
         return macroclient.replay(kv["case"], quiet)
     if kv["case"].startswith("hdrclient "):
         return hdrclient.replay(kv["case"], quiet)
+    if kv["case"].startswith("opfootprint "):
+        from . import crosspass
+        return crosspass.replay(kv, quiet)
     if kv["case"].startswith("longmove "):
         r = subprocess.run([LONGMOVE, "replay"] + kv["case"].split()[1:], capture_output=True, text=True, errors="replace", env=dict(env, C07_PROP=kv["property"]))
     elif kv["case"].startswith("fmtguard "):
